@@ -168,8 +168,13 @@ func genC07(r *Rand, tier string) []Case {
 		case 0, 1: // single CTE
 			tags = append(tags, "cte")
 			inner, _, _ = innerQuery(r, t, &tags)
-			q = outerOver(r, t, &From{K: "table", Path: []string{"c"}}, nil, &tags)
-			q.With = []CTE{{Name: "c", Q: inner}}
+			cname := "c"
+			if r.Chance(15) {
+				cname = "dual" // a CTE may be called like the pseudo table: FROM dual then reads the CTE
+				tags = append(tags, "cte-named-dual")
+			}
+			q = outerOver(r, t, &From{K: "table", Path: []string{cname}}, nil, &tags)
+			q.With = []CTE{{Name: cname, Q: inner}}
 			staged = outerOver2(q, &From{K: "table", Path: []string{"staged"}})
 			stagedKey = "staged"
 		case 2: // CTE chain: c2 reads c1
@@ -228,7 +233,12 @@ func genC07(r *Rand, tier string) []Case {
 			}
 			if r.Chance(45) {
 				// reads a root table AND is correlated to the current row (through `<-`): differs per row
-				sub.Where = Cmp(Pick(r, cmpOps), Col("v"), Col("<-", Pick(r, []string{"n1", "n2", "id"})))
+				back := Col("<-", Pick(r, []string{"n1", "n2", "id"}))
+				if r.Bool() {
+					back.Qualified = true // the spelling `<-`.n1 of the same reference
+					tags = append(tags, "backref-qualified-spelling")
+				}
+				sub.Where = Cmp(Pick(r, cmpOps), Col("v"), back)
 				tags = append(tags, "subquery-root-correlated")
 				if r.Bool() {
 					sub.Items = []Item{{E: &Expr{K: "agg", Name: "count", Star: true}, Alias: "k"}}
@@ -278,6 +288,30 @@ func genC07(r *Rand, tier string) []Case {
 		}
 		in := c07In{engIn: engIn{Doc: doc, Q: q, SQL: q.SQL()}, StagedQ: staged, StagedKey: stagedKey, InnerQ: inner}
 		out = append(out, Case{Input: in, Tags: tags, Nontrivial: len(t.rows) >= 2, Key: q.SQL() + fmt.Sprint(doc)})
+	}
+	// EXISTS / IN over LONG nested arrays whose only matching element sits near the end
+	for _, shape := range [][2]int{{300, 280}, {257, 256}, {600, 599}, {256, 255}, {70, 69}} {
+		rows := []any{}
+		for id := 1; id <= 3; id++ {
+			items := make([]any, shape[0])
+			for j := range items {
+				items[j] = map[string]any{"p": float64(j % 5), "w": "x"}
+			}
+			if id != 2 {
+				items[shape[1]] = map[string]any{"p": float64(77), "w": "hit"}
+			}
+			rows = append(rows, map[string]any{"id": float64(id), "n1": float64(70 + id*7), "items": items})
+		}
+		doc := map[string]any{"t": rows}
+		for _, w := range []*Expr{
+			{K: "exists", Q: &Stmt{From: &From{K: "table", Path: []string{"items"}}, Items: []Item{{Star: true}}, Where: Cmp("=", Col("p"), Num(77))}},
+			{K: "exists", Q: &Stmt{From: &From{K: "table", Path: []string{"items"}}, Items: []Item{{Star: true}}, Where: Cmp("=", Col("p"), Col("n1"))}},
+			{K: "insub", A: Num(77), Q: &Stmt{From: &From{K: "table", Path: []string{"items"}}, Items: []Item{{E: Col("p")}}}},
+		} {
+			q := &Stmt{From: &From{K: "table", Path: []string{"t"}}, Items: []Item{{E: Col("id")}}, Where: w}
+			in := c07In{engIn: engIn{Doc: doc, Q: q, SQL: q.SQL()}}
+			out = append(out, Case{Input: in, Tags: []string{"long-nested-array", fmt.Sprintf("len:%d", shape[0])}, Nontrivial: true, Key: q.SQL() + fmt.Sprint(shape)})
+		}
 	}
 	return out
 }
